@@ -450,6 +450,10 @@ func cmdSmfGen(args []string) {
 				hdr = append(hdr, []byte("MTrk")...)
 				hdr = append(hdr, be32(r.Intn(100))...)
 				rec.Bytes, rec.Src = append(hdr, payload(r, r.Intn(200), false)...), "header+random"
+			case k < 6: // well-formed structure, but fixed-length meta types with other (self-consistent) lengths
+				oddMeta = true
+				rec.Bytes, rec.Src = genValidFile(r, false, feat), "oddmeta"
+				oddMeta = false
 			default:
 				b := validFile(r, false, feat)
 				for m := 1 + r.Intn(3); m > 0; m-- {
